@@ -292,7 +292,9 @@ class Driver:
 # --------------------------------------------------------------------------- findings
 
 def load_findings(pid: str):
-    p = os.path.join(VERIF, 'known_findings.json')
+    """known_findings/<pid>.json is the committed source (never written at run time);
+    known_findings.json is the assembled copy written by harness/mk_manifest.py"""
+    p = os.path.join(VERIF, 'known_findings', pid + '.json')
     if not os.path.exists(p):
         return []
     return [e for e in json.load(open(p))['findings'] if e['property'] == pid]
